@@ -36,9 +36,9 @@ def _cond(r, have_param, deterministic):
     else:
         opts = ["u_minus_c", "u_minus_sin", "lap", "grad"]
         if have_param:
-            opts += ["lap_k", "u_minus_k"]
+            opts += ["lap_k", "u_minus_k", "lap_kdef", "u_minus_kdef"]
         c["resid"] = r.choice(opts)
-        if c["resid"] in ("lap_k", "u_minus_k"):
+        if c["resid"] in ("lap_k", "u_minus_k", "lap_kdef", "u_minus_kdef"):
             c["use_param"] = True
         if r.random() < 0.2 and c["resid"] == "u_minus_c":
             c["resid"] = "u_minus_f"
